@@ -577,6 +577,15 @@ def _parse_one_response(buf, pos, method, closed):
                 m.end = e
                 m.wire_body = e - body_start
                 return m
+            if cod is None:
+                _add(m.either, 'te-malformed')
+                m.opaque = True
+                return m
+            if cod and any(c[0] == b"chunked" for c in cod):
+                # chunked applied but not last (a sender MUST NOT do that): nothing sensible to derive
+                _add(m.either, 'te-chunked-not-final')
+                m.opaque = True
+                return m
             # final coding not chunked: close-delimited (§6.3.4)
             m.features.add('te-not-chunked-close-delimited')
             return _close_delimited(m, buf, pos, closed)
